@@ -209,10 +209,11 @@ def r20_3(c, R, S, M, cmp_):
         R.inst("R20.3", "pool:count-precedes-table", root["items"].index(cnt) + 1 == root["items"].index(fld), sp=cmp_.sp(root, fld["line"]))
     except Unrecognised as e:
         R.unrecognised("R20.3", "pool:count", str(e), root["sp"])
-    # index base in pool_has_utf8
-    fn = c.fn("pool_has_utf8")
-    if R.anchor("R20.3", "fn pool_has_utf8", fn):
-        X.check_pool_lookup(R, "R20.3", fn, P["first_index"], CR + "::" + cp_T)
+    # the lookup function the attribute guards call (anchored by that role; a private helper may be renamed)
+    names = sorted(cmp_.lookup_fns)
+    fn = c.fn(names[0]) if len(names) == 1 else None
+    if R.anchor("R20.3", "the one function all attribute guards call (pool, name index, expected bytes)", fn and len(fn["params"]) == 3):
+        X.check_pool_lookup(c, R, "R20.3", fn, P["first_index"], CR + "::" + cp_T)
     # pool threading in ClassFile::_read and the public read()
     X.check_pool_threading(c, R, "R20.3", M, root, fld)
     # two-slot entries
@@ -300,8 +301,7 @@ def r20_6(F, c, R, M, cmp_):
 
 # ------------------------------------------------------------------------------------ R20.7
 def r20_7(c, R, ST):
-    R.rule("R20.7", "raw_class_file::insn constants: every name that is a JVMS mnemonic has the JVMS opcode value, the values are pairwise "
-                    "distinct and cover 0x00..=0xc9 plus the three reserved opcodes; raw_class_file::flags::ACC_* equal the JVMS masks")
+    R.rule("R20.7", "raw_class_file::insn constants: every name that is a JVMS mnemonic has the JVMS opcode value, the values cover 0x00..=0xc9 plus the three reserved opcodes; raw_class_file::flags::ACC_* equal the JVMS masks")
     insn = c.const_values(CR + "::insn")
     if R.anchor("R20.7", "mod insn", len(insn) >= 200):
         spec = {o["mnemonic"]: o["value"] for o in ST["opcodes"]}
@@ -309,9 +309,9 @@ def r20_7(c, R, ST):
         for nm, val in sorted(insn.items()):
             if nm in spec:
                 R.inst("R20.7", "insn:%s" % nm, val == spec[nm], expect=spec[nm], got=val)
-        vals = sorted(insn.values())
-        R.inst("R20.7", "insn:values-bijective", vals == sorted(spec.values()), expect="%d distinct JVMS opcode values" % len(spec),
-               got="%d constants, %d distinct" % (len(vals), len(set(vals))))
+        vals = set(insn.values())
+        R.inst("R20.7", "insn:values-cover", vals == set(spec.values()), expect="exactly the %d JVMS opcode values" % len(spec),
+               got="missing %s, not an opcode %s" % (sorted(set(spec.values()) - vals), sorted(vals - set(spec.values()))))
     flags = c.const_values(CR + "::flags")
     if R.anchor("R20.7", "mod flags", len(flags) >= 20):
         by = {}
